@@ -124,7 +124,10 @@ def shrink(mod, case, still_fails, budget=200):
 
 def evaluate(mod, cases, workers, use_model=True):
     """Run real code (+ oracle) and the model on the cases. Returns dict with failures/mismatches/stats."""
+    t_real = time.time()
     obs = run_cases(mod, cases, workers)
+    t_real = time.time() - t_real
+    t_model = 0.0
     failures, mismatches = [], []
     harness_errors = []
     for c, o in zip(cases, obs):
@@ -143,17 +146,25 @@ def evaluate(mod, cases, workers, use_model=True):
     model_error = None
     validated = 0
     if use_model and hasattr(mod, "model_op"):
-        idx, ops = [], []
+        idx, ops, spans = [], [], []
         for i, (c, o) in enumerate(zip(cases, obs)):
             if isinstance(o, dict) and "harness_exception" in o:
                 continue
             op = mod.model_op(c, o)
             if op is not None:
                 idx.append(i)
-                ops.append(op)
+                if isinstance(op, list):       # several driver lines for one case
+                    spans.append((len(ops), len(op)))
+                    ops += op
+                else:
+                    spans.append((len(ops), None))
+                    ops.append(op)
         if ops:
             try:
-                outs = leanio.drive(ops)
+                t_model = time.time()
+                flat = leanio.drive(ops)
+                t_model = time.time() - t_model
+                outs = [flat[a] if n is None else flat[a:a + n] for a, n in spans]
                 for i, mo in zip(idx, outs):
                     model_obs[i] = mo
                     d = mod.compare(cases[i], obs[i], mo)
@@ -163,7 +174,8 @@ def evaluate(mod, cases, workers, use_model=True):
             except Exception as e:
                 model_error = f"{type(e).__name__}: {str(e)[:400]}"
     return {"obs": obs, "model_obs": model_obs, "failures": failures, "mismatches": mismatches,
-            "harness_errors": harness_errors, "model_error": model_error, "validated": validated}
+            "harness_errors": harness_errors, "model_error": model_error, "validated": validated,
+            "t_real": round(t_real, 2), "t_model": round(t_model, 2)}
 
 
 def main(argv=None):
@@ -416,7 +428,7 @@ def check(pid, tier, seed, replay, no_lean=False):
     print(f"{pid} tier={tier} seed={seed}: theorems {discharged}/{obligations} discharged; cases={len(cases)} "
           f"nontrivial={nontrivial} validated-vs-model={res['validated']} mismatches={len(res['mismatches'])} "
           f"oracle-failures={len(res['failures'])} (known: {attributed_n}) broken={len(broken)} "
-          f"wall={time.time() - t0:.1f}s")
+          f"wall={time.time() - t0:.1f}s (real {res['t_real']}s, model {res['t_model']}s)")
     if violation_line:
         for b in broken[:5]:
             print("  broken obligation:", b["kind"], "-", str(b["name"])[:200])
